@@ -14,9 +14,9 @@ func init() {
 	register(&propertyDef{
 		id:    "C08",
 		title: "accepted workflows are type-sound",
-		rules: []ruleFunc{c08R1, c08R2, c08R3, c08R4, c08R5, c08R6},
+		rules: []ruleFunc{c08R1, c08R2, c08R3, c08R4, c08R5, c08R6, c08R7},
 		decided: "writer/reader agreement for every engine-generated step output: each (stage, output id) a provider reports with a literal value is declared in that provider's Lifecycle, the value is in serialized (map) form, its key set equals the declared object's properties and every key's Go type matches the property's schema constructor (R1); " +
-			"stage inputs are validated before hand-over (R2 = C02.R6); the returned output is validated (R3 = C03.R4); the workflow input is validated first (R4 = C19.R1); a loop step lists an item under `success` only after comparing the sub-run's output id with \"success\" (R5). Shared: the data model holds the normalised input on every path (R6 = C19.R2).",
+			"stage inputs are validated before hand-over (R2 = C02.R6); the returned output is validated (R3 = C03.R4); the workflow input is validated first (R4 = C19.R1); a loop step lists an item under `success` only after comparing the sub-run's output id with \"success\" (R5). Shared: the data model holds the normalised input on every path (R6 = C19.R2). The declared schemas of engine-generated outputs carry no constraint the producing code does not establish (R1c); the typing walkers descend into every element (R7 = C02.R7).",
 		notDecided: "soundness of ValidateCompatibility and of type inference (needs generated workflows); conformance of what a plugin itself sends (no engine-side validation exists).",
 	})
 }
@@ -264,7 +264,7 @@ func (pl *plit) branchPairs(fd *ast.FuncDecl, idVar, dataVar *ast.Ident) []produ
 // C08.R1 engine-generated outputs agree with their declared schemas.
 func c08R1(c *Ctx) {
 	const rule = "C08.R1"
-	c.explain("C08.R1 for every report of a stage output with a constant id and a literal value in the plugin and foreach providers: the (stage, id) pair is declared by the provider's Lifecycle(), the value is a map literal (not a Go struct), its keys equal the declared object's property names and each key's Go type matches the property's schema constructor")
+	c.explain("C08.R1 for every report of a stage output with a constant id and a literal value in the plugin and foreach providers: the (stage, id) pair is declared by the provider's Lifecycle(), the value is a map literal (not a Go struct), its keys equal the declared object's property names and each key's Go type matches the property's schema constructor; R1c the engine-built part of every declared output schema carries no size/range/pattern constraint (the producing code establishes none)")
 	total := 0
 	for _, pkg := range []string{pkgPlugin, pkgForeach} {
 		pl := c.newPlit(pkg)
@@ -280,6 +280,11 @@ func c08R1(c *Ctx) {
 		byID := map[string][]declaredOutput{}
 		for _, d := range decl {
 			byID[d.id] = append(byID[d.id], d)
+			// R1c: the engine-built part of a declared output schema imposes no size/range/pattern constraint: the Go code
+			// that produces these values establishes none (an empty item list yields an empty result list, and so on)
+			cons := d.shape.constraints(d.stage + "." + d.id)
+			c.verdict(len(cons) == 0, "C08.R1c", "declared-unconstrained:"+short+":"+d.stage+"."+d.id, c.pos(d.pos), "no size/range/pattern constraint on the engine-built part of the declared output schema",
+				"the declared schema of the engine-generated output "+d.stage+"."+d.id+" demands "+strings.Join(cons, "; ")+", which the producing code does not establish (e.g. a loop over an empty list returns an empty list): a value the engine itself produces is rejected by its own schema (`bug: output schema cannot unserialize output data`)")
 		}
 		prods := pl.producedOutputs()
 		sort.SliceStable(prods, func(i, j int) bool { return prods[i].pos < prods[j].pos })
